@@ -3,9 +3,14 @@
 
 package tools
 
-import "os"
+import (
+	"os"
+
+	"github.com/git-lfs/git-lfs/v3/verifhook"
+)
 
 func RobustRename(oldpath, newpath string) error {
+	verifhook.Crash("rename")
 	return os.Rename(oldpath, newpath)
 }
 
